@@ -218,6 +218,7 @@ def derived_deep(f, t):
 def rules(fx, ck, scope, printer_root="value::number_to_string", pre=""):
     ck.rule("R4.digits-from-the-number", "every f64 handed to Display/LowerExp in the number printers is the number itself, not a value computed from it", floor=4)
     ck.rule("R5.one-printer", "plain `{}` of a script number only inside value::number_to_string and its helpers", floor=1)
+    ck.rule("R6b.finite-before-format", "a precision / exponent format of a script number is dominated by a finiteness test (Rust prints `inf` / `NaN`)", floor=2)
     ck.rule("R6.tie-rounding", "no precision formatting (`{:.N}`, `{:.Ne}`: ties to even) of a script number where ECMAScript picks the larger candidate", floor=0)
     cone = set()
     if printer_root in fx.fns:
@@ -253,6 +254,16 @@ def rules(fx, ck, scope, printer_root="value::number_to_string", pre=""):
                 ck.finding("R5.one-printer", "R5.one-printer/%s" % top, F.short_span(t[6]),
                            "`%s` turns a number into its default string with Rust's `{}` instead of value::number_to_string: the two disagree "
                            "on the notation thresholds (`(1e21).toString()` gives '1000000000000000000000', `(1e-7).toString()` '0.0000001')" % top)
+        if has_prec or kind != "new_display":
+            # Rust prints non-finite doubles as `inf` / `NaN`: a precision / exponent format of a script number comes after a finiteness test
+            top = f.parent if f.closure else f.path
+            fin = [b2 for b2, t2 in f.calls() if (t2[1].get("d") or "").endswith(("f64>::is_finite", "f64>::is_nan", "f64>::is_infinite"))]
+            okf = any(f.dominates(b2, bi) for b2 in fin) or top in cone
+            ck.instance("R6b.finite-before-format", "%s: %s" % (f.path, kind), F.short_span(t[6]), ok=okf)
+            if not okf:
+                ck.finding("R6b.finite-before-format", "R6b.finite-before-format/%s" % top, F.short_span(t[6]),
+                           "`%s` formats a number with a precision / exponent template without testing it for finiteness first: Rust spells the non-finite "
+                           "doubles `inf` and `-inf` (`(Infinity).toFixed(2)` gives 'inf', the language says 'Infinity')" % top)
         if has_prec:
             top = f.parent if f.closure else f.path
             ck.instance("R6.tie-rounding", "%s: precision formatting" % f.path, F.short_span(t[6]), ok=False)
